@@ -51,6 +51,10 @@ func (c *Codec) decodeQuery(queryString url.Values, msg protoreflect.Message) er
 	}
 
 	for key, values := range queryString {
+		if len(values) == 0 {
+			return status.Error(codes.InvalidArgument, fmt.Sprintf("no value provided for query parameter %q", key))
+		}
+
 		prop, err := propertyAtPath(root, key)
 		if err != nil {
 			return err
